@@ -71,23 +71,24 @@ static inline void symbolic_sleepers(ThreadPool& p, unsigned N) {
   }
 }
 
-// pre-fill through the real try_push: k <= kmax ballast tasks (kmax must be a compile-time constant so
-// that the loop has a constant trip count; k may be symbolic)
-static inline void fill_steal_ring(ThreadPool& p, size_t s, unsigned k, unsigned kmax) {
-  for (unsigned j = 0; j < kmax; ++j) {
-    if (j < k) {
-      bool ok = p.stealRings_[s].try_push(OnceFunction(Ballast()));
-      vf_assume(ok);
-    }
+// pre-fill through the real try_push: k in 0..4 ballast tasks (k may be symbolic; written without a loop
+// so that no unwinding bound is involved)
+#define PK_PUSH_IF(ring, cond)                                  \
+  if (cond) {                                                   \
+    bool ok_ = (ring).try_push(OnceFunction(Ballast()));        \
+    vf_assume(ok_);                                             \
   }
+static inline void fill_steal_ring(ThreadPool& p, size_t s, unsigned k) {
+  PK_PUSH_IF(p.stealRings_[s], k > 0)
+  PK_PUSH_IF(p.stealRings_[s], k > 1)
+  PK_PUSH_IF(p.stealRings_[s], k > 2)
+  PK_PUSH_IF(p.stealRings_[s], k > 3)
 }
-static inline void fill_ring(ThreadPool& p, size_t r, unsigned k, unsigned kmax) {
-  for (unsigned j = 0; j < kmax; ++j) {
-    if (j < k) {
-      bool ok = p.rings_[r].try_push(OnceFunction(Ballast()));
-      vf_assume(ok);
-    }
-  }
+static inline void fill_ring(ThreadPool& p, size_t r, unsigned k) {
+  PK_PUSH_IF(p.rings_[r], k > 0)
+  PK_PUSH_IF(p.rings_[r], k > 1)
+  PK_PUSH_IF(p.rings_[r], k > 2)
+  PK_PUSH_IF(p.rings_[r], k > 3)
 }
 // central queue pre-fill: keep k a compile-time constant (a symbolic element count makes every access
 // to the queue model's storage a symbolic-offset byte access, measured 10x formula size)
